@@ -93,6 +93,13 @@ def run_styles(ctx, nprog, ncombo):
         b0 = gen.render_file(prog)
         tw = ''.join(l + rng.choice([' ', '   ', '\t', ' \t ']) + '\n' for l in b0.split('\n'))
         ops.append({'op': 'ast', 'rules': tw}); meta.append((k, json.dumps({'trailing_ws': True}), tw))
+        # how the file begins and ends: no final newline, a comment as the very last thing (with and without a newline after
+        # it), a comment after the last clause on its line, comments and blank lines before the first rule, several final newlines
+        core = b0.rstrip('\n')
+        for lab2, t2 in (('eof_no_newline', core), ('eof_comment_no_newline', core + '\n# the end'), ('eof_comment_newline', core + '\n# the end\n'),
+                         ('eof_same_line_comment_no_newline', core + ' # the end'), ('eof_blank_lines', core + '\n\n\n'), ('eof_spaces', core + '\n   '),
+                         ('bof_comment', '# header\n\n' + b0), ('bof_blank', '\n\n  \n' + b0), ('eof_hash_only', core + '\n#')):
+            ops.append({'op': 'ast', 'rules': t2}); meta.append((k, json.dumps({lab2: True}), t2))
         if '"' not in re.sub(r'"[^"\[\]\n]*"', '', b0):
             fn = re.sub(r'\[ ', '[\n      ', re.sub(r' \]', '\n    ]', b0))
             if fn != b0:
